@@ -343,3 +343,23 @@ def tables_jobs(ctx, spec, cfg, depth, e1_lengths=(), timeout=600, mem_mb=12000,
         jobs.append(j)
     ctx.functions.update(['yytables_fload', 'yytbl_hdr_read', 'yytbl_data_load', 'yytbl_fload', 'yy_get_previous_state'])
     return jobs, g
+
+
+def stack_jobs(ctx, spec, cfg, timeout=400, mem_mb=10000):
+    wd, g = _prep(ctx, spec, cfg, 'stack', extra_options=ALLOC_OPTS + ['stack'])
+    jobs = []
+    if not g.ok:
+        return jobs, g
+    for w in (False, True):
+        src = os.path.join(wd, 'stack%s.c' % ('_w' if w else ''))
+        with open(src, 'w') as fh:
+            fh.write(H.stack_harness(g, cfg, spec, witness=w))
+        j = cbmc.Job('stack_%s_%s%s' % (spec.name, cfg.name, '_w' if w else ''), wd, [src], scanner_bounds(g, 2, 0),
+                     includes=[wd, H.HDIR], harness_bound=None, timeout=timeout, mem_mb=mem_mb, gen_file=g.cpath,
+                     expect='witness' if w else 'proved',
+                     meta=dict(engine='E4', entry=spec.name, config=cfg.name,
+                               bound='4 solver-chosen push/pop/begin operations, then 27 pushes (past YY_START_STACK_INCR) and 27 pops with symbolic conditions, optional underflow',
+                               flex_input=g.ltext, flex_args=g.args))
+        jobs.append(j)
+    ctx.functions.update(['yy_push_state', 'yy_pop_state', 'yy_top_state'])
+    return jobs, g
